@@ -20,8 +20,8 @@ class _SyncQueue(queue.Queue):
 
 
 class HttpHarness(Harness):
-    def __init__(self, addons=(), n_regions=2):
-        super().__init__(addons=addons, n_regions=n_regions)
+    def __init__(self, addons=(), n_regions=2, login_extras=None):
+        super().__init__(addons=addons, n_regions=n_regions, login_extras=login_extras)
         from hippolyzer.lib.proxy.http_event_manager import MITMProxyEventManager
         self.flow_context = self.session_manager.flow_context
         self.flow_context.from_proxy_queue = _SyncQueue()
@@ -210,6 +210,27 @@ def bounded_flows(reg, tier, seed):
                     fail("flows/handback", "taken flow was not handed back exactly once on release after a handler failure", inp)
             except AssertionError:
                 fail("flows/handback", "the owner could not release its flow after a handler failure (already handed back)", inp)
+        # two more sessions in the same proxy (two viewers on one machine): one in the same simulator - a region at the very same
+        # address -, one elsewhere. A flow's owning session AND region are those it had, for every (session, region) pair
+        from hippolyzer.lib.base.datatypes import UUID as _U
+        others = []
+        for k_, (ip_, port_) in enumerate((region.circuit_addr, ("10.0.0.77", 13077))):
+            s_ = h.session_manager.create_session({"session_id": _U.random(), "secure_session_id": _U.random(), "agent_id": _U.random(), "circuit_code": 2000 + k_,
+                                                   "sim_ip": ip_, "sim_port": port_, "region_x": 0, "region_y": 123,
+                                                   "seed_capability": "https://test.localhost:4/other%d" % k_})
+            others.append(s_)
+        for sess_ in [h.session] + others:
+            for reg_ in sess_.regions:
+                f = h.mkflow("https://sim.example/cap/foo/q")
+                hf = HippoHTTPFlow.from_state(f.get_state(), h.session_manager)
+                hf.cap_data = CapData("Foo", weakref.ref(reg_), weakref.ref(sess_), "https://sim.example/cap/foo", CapType.NORMAL)
+                hf2 = HippoHTTPFlow.from_state(hf.get_state(), h.session_manager)
+                evals += 1
+                seen.add(("transfer-sessions", str(sess_.id)[-4:], str(reg_.circuit_addr)))
+                cd = hf2.cap_data
+                if cd.session is None or cd.session() is not sess_ or cd.region is None or cd.region() is not reg_:
+                    fail("flows/state", "with several sessions in the proxy (one sharing a simulator address) the flow's owning session / region changed in the "
+                         "state transfer", {"region_addr": str(reg_.circuit_addr), "sessions": len(others) + 1})
         # state transfer round trip: from_state(get_state(f)) keeps cap data and flags
         for cap_type in CapType:
             for flags in itertools.product((False, True), repeat=3):
@@ -367,7 +388,9 @@ def bounded_caps(reg, tier, seed):
             failures.append({"key": key, "clause": what, "input": inp, "observed": what})
     runs = 40 if tier == "quick" else 400
     for run in range(runs):
-        h = HttpHarness(n_regions=2)
+        # what the grid's login response carries besides the seed capability varies: service URLs present, absent, or empty strings
+        h = HttpHarness(n_regions=2, login_extras=rng.choice([None, None, {"map-server-url": "", "agent_appearance_service": ""},
+                                                              {"map-server-url": "https://map.example/", "agent_appearance_service": "https://bake.example/"}]))
         try:
             # reference model: per region, name -> list of (type, url) newest first
             ref = {i: {"Seed": [("NORMAL", r.caps["Seed"][1])]} for i, r in enumerate(h.session.regions)}
@@ -526,6 +549,17 @@ def bounded_caps(reg, tier, seed):
                     w = shown.get("GetTexture", "")
                     if "hippo-proxy.localhost" not in w or h.session_manager.resolve_cap(w + "/a").cap_name != "GetTextureProxyWrapper":
                         fail("caps/seed-response", f"asset cap not presented through a wrapper URL: {w}", {})
+                    # after the seed round trip the proxy-only capability is what it was: the same URL when registered again, that URL
+                    # still resolves to it as a proxy-only capability, and the caps the simulator granted are the newest of their names
+                    again = region.register_proxy_cap("ProxyOnlyCap")
+                    if again != purl:
+                        fail("caps/proxy-cap", f"registering the proxy-only cap again after a seed round trip gave a different URL ({again} vs {purl})", {})
+                    cd_ = h.session_manager.resolve_cap(purl + "/x")
+                    if not cd_ or cd_.cap_name != "ProxyOnlyCap" or cd_.type != CapType.PROXY_ONLY:
+                        fail("caps/proxy-cap", f"after a seed round trip the proxy-only cap URL resolves to {cd_.cap_name if cd_ else None} / {cd_.type if cd_ else None}", {})
+                    for k in ("Foo", "Zed"):
+                        if region.cap_urls.get(k) != granted[k]:
+                            fail("caps/by-name", f"after the seed response lookup of {k} by name gives {region.cap_urls.get(k)}, granted was {granted[k]}", {})
                 else:
                     fail("caps/seed-response", "seed response was not handed back", {})
             else:
@@ -557,7 +591,7 @@ def bounded_eq(reg, tier, seed):
             self.registered = []
 
         def handle_eq_event(self, session, region, event):
-            if event["body"].get("n") in self.swallow:
+            if isinstance(event["body"], dict) and event["body"].get("n") in self.swallow:
                 return True
 
         def handle_region_registered(self, session, region):
@@ -631,8 +665,12 @@ def bounded_eq(reg, tier, seed):
                         from hippolyzer.lib.base.message.llsd_msg_serializer import LLSDMessageSerializer as _L
                         en = _L().serialize(_M("EnableSimulator", _B("SimulatorInfo", Handle=123456789, IP="10.7.7.7", Port=7000)), as_dict=True)
                         events.insert(len(events) - 1, {"message": en["message"], "body": en["body"]})
-                a.swallow = {e["body"]["n"] for e in events if "n" in e["body"] and rng.random() < 0.35}
-                will_announce = op == "poll_region" and k and (events[-1]["body"]["n"] not in a.swallow or len(events) > k)
+                if events and rng.random() < 0.25:
+                    # an event the proxy has no template for, whose body is not a map (an array): carried through like any other
+                    events.insert(rng.randrange(len(events)), {"message": "SimStatsSnapshot", "body": [len(trace), "stats", 1.5]})
+                a.swallow = {e["body"]["n"] for e in events if isinstance(e["body"], dict) and "n" in e["body"] and rng.random() < 0.35}
+                will_announce = op == "poll_region" and k and (events[-1]["body"]["n"] not in a.swallow or len(events) > k + 1 or
+                                                               (len(events) > k and not any(isinstance(e["body"], list) for e in events)))
                 req_body = llsd.format_xml({"ack": ack, "done": False})
                 f = h.mkflow(eq_url, content=req_body, cap=cap)
                 exc, back = h.event("request", f)
@@ -668,7 +706,7 @@ def bounded_eq(reg, tier, seed):
                 shown = llsd.parse_xml(mf2.response.content)
                 if events:
                     announced = announced or will_announce
-                    kept = [e for e in events if e["body"].get("n") not in a.swallow]
+                    kept = [e for e in events if not isinstance(e["body"], dict) or e["body"].get("n") not in a.swallow]
                     want = kept + pending_injected
                     if not want:
                         if shown is not None and shown != {}:
@@ -689,10 +727,10 @@ def bounded_eq(reg, tier, seed):
                     if shown not in (None, {}):
                         fail("eq/undef", f"an undef response was rewritten to {shown!r}", {"trace": trace[-6:]})
             # every injected event delivered exactly once, sim events in order without duplicates
-            ns = [e["body"]["n"] for e in delivered if "n" in e["body"]]
+            ns = [e["body"]["n"] for e in delivered if isinstance(e["body"], dict) and "n" in e["body"]]
             if ns != sorted(set(ns)):
                 fail("eq/events", f"simulator events duplicated or reordered: {ns}", {"trace": trace[-8:]})
-            injs = [e["body"]["inj"] for e in delivered if "inj" in e["body"]]
+            injs = [e["body"]["inj"] for e in delivered if isinstance(e["body"], dict) and "inj" in e["body"]]
             if len(injs) != len(set(injs)):
                 fail("eq/events", f"injected events delivered more than once: {injs}", {"trace": trace[-8:]})
             addr = ("10.7.7.7", 7000)
